@@ -68,6 +68,9 @@ impl SatSolver for BufferedSatSolver {
     }
 
     fn solve_under_assumptions(&mut self, assumptions: &[Literal]) -> SolvingResult {
+        assumptions
+            .iter()
+            .for_each(|a| self.n_vars = usize::max(self.n_vars, usize::from(a.var())));
         self.listeners
             .iter()
             .for_each(|l| l.solving_start(self.n_vars(), self.n_clauses));
